@@ -101,6 +101,17 @@ class Env:
 def gen_num(rng, env, budget, shape=None):
     """numeric expression using at most `budget` operator nodes; returns (expr, used)"""
     if getattr(env, "nest", 0) and env.num_rc and rng.random() < env.nest:
+        if budget >= 1 and rng.random() < 0.4:
+            # a GUARDED bind used as a value: (:= v (if c e)) / (!if ..) / (ewma a e) updates v in place and is v's value
+            # (the compiler accepts a guarded bind only on a declared Report/control variable)
+            tgt = rng.choice(env.num_rc)
+            kind = rng.choice(["if", "notif", "ewma"])
+            if kind == "ewma":
+                c, uc = ("num", rng.randrange(0, 11)), 0
+            else:
+                c, uc = gen_cond(rng, env, min(budget, rng.randrange(1, 3)))
+            v, uv = gen_num(rng, env, max(0, budget - uc), shape)
+            return ("op", "bind", ("var", tgt), ("op", kind, c, v)), uc + uv
         # a plain bind used as a value (its value is the value bound); the target is an ordinary numeric variable
         tgt = rng.choice(env.num_rc + env.locals_num)
         v, u = gen_num(rng, env, budget, shape)
@@ -490,6 +501,13 @@ def semantic_corner_programs():
     out.append("(def (Report (acked 0)) (c 0)) (when true (:= x y) (:= x 3) (:= Report.acked x) (report))")
     out.append("(def (Report (a 0) (b 0))) (when true (bind p q) (bind p 5) (bind q 6) (:= Report.a p) (:= Report.b q) (report))")
     out.append("(def (Report (a 0))) (when true (:= p q) (:= r p) (:= p 1) (:= r 2) (:= q 3) (:= Report.a (+ (+ p r) q)) (report))")
+    # the SAME pure sub-expression before and after a nested bind of a variable it reads (round 5: a table of already computed
+    # sub-expressions reused the first temporary although a guarded bind had changed the variable in between)
+    for g in ("(if (> Ack.bytes_acked 0) 7)", "(!if (> Ack.bytes_acked 0) 7)", "(ewma 5 Ack.bytes_acked)", "7", "(+ Report.x Ack.bytes_acked)"):
+        out.append("(def (Report (r 0) (x 10))) (when true (:= Report.r (+ (* Report.x 2) (+ (:= Report.x %s) (* Report.x 2)))) (report))" % g)
+        out.append("(def (Report (r 0)) (x 10)) (when true (:= Report.r (+ (+ x 1) (* (:= x %s) (+ x 1)))) (report))" % g.replace("Report.x", "x"))
+        out.append("(def (Report (r 0) (x 10))) (when (> (+ (* Report.x 2) (:= Report.x %s)) (* Report.x 2)) (:= Report.r Report.x) (report))" % g)
+        out.append("(def (Report (r 0) (x 3))) (when true (:= Report.r (max (min Report.x 5) (max (:= Report.x %s) (min Report.x 5)))) (report)) (when true (:= Report.r (min Report.x 5)))" % g)
     for lit in (2**31 - 1, 2**31, 2**32 - 1, 2**32, 2**33 - 1, 2**40, 2**40 - 1, 2**63 - 1, 2**63, 2**64 - 2, 2**64 - 1, 2**64, 3 * 2**32 + 0xffffffff):
         out.append("(def (Report (x 0))) (when true (:= Report.x %d) (report))" % lit)
         out.append("(def (Report (x %d))) (when true (report))" % lit)
